@@ -13,12 +13,13 @@ from vfw.core import Part, Violation, guarded
 LEVEL = 'exploration'
 RULE = (
     '2-8 strictly increasing knots (spacing 0.5-800 mm), conductivities '
-    '10^U(-5,4) km/d (some adjacent pairs equal: zero log-slope), minimum '
-    'transmissivity 10^U(-3,2); levels drawn below the lowest knot, on every '
+    '10^U(-5,4) km/d, or a tight profile 10^U(-13,-6) with a minimum of '
+    '10^U(-12,-6) (some adjacent pairs equal: zero log-slope; integer-typed '
+    'values in half of the cases), minimum transmissivity 10^U(-3,2); levels drawn below the lowest knot, on every '
     'knot, just beside knots, inside every segment and exactly on the highest '
     'knot. Oracle: closed form T_min + sum K_i*expm1(s_i*dz)/s_i (K_i*dz '
     'when s_i = 0) compared with numpy.allclose defaults (rtol 1e-5, atol '
-    '1e-8); T = T_min at and below the lowest knot; monotone non-decreasing '
+    '1e-8, the absolute term scaled down to 1e-6*T_min for minute values); T = T_min at and below the lowest knot; monotone non-decreasing '
     'over the sorted levels (relative slack 1e-9); continuity across knots; '
     'scalar, list and array arguments agree. Non-trivial: some level lies '
     'above >= 2 knots and the conductivity contrast along the path is >= '
@@ -87,7 +88,9 @@ def check(case):
                                 'T({!r})={!r}, minimum {!r}'.format(
                                     level, got, tmin))
             continue
-        if not np.allclose(got, want):
+        # numpy.allclose defaults, except that the absolute term is scaled
+        # down for minute transmissivities (tight subsoil, K << 1e-8 km/d)
+        if not abs(got - want) <= 1e-5 * abs(want) + min(1e-8, 1e-6 * tmin):
             gaps = [b - a for a, b in zip(z[:-1], z[1:])]
             detail = 'T({!r})={!r}, closed form {!r}, knots {} K {}'.format(
                 level, got, want, z, K)
